@@ -433,7 +433,7 @@ def gen_probe(rng, i):
          'form': rng.choice(['list', 'string', 'list', 'popen-list', 'popen-string']),
          'enc': rng.choice([None, 'utf-8']),
          'cwd': rng.choice([None, 'sub dir', 'd\xe9']),
-         'env': rng.choice([None, {'A': '1'}, {'X Y': 'a b', 'E': '', 'U': '\xe9=€', 'PATH': '/usr/bin:/bin'}]),
+         'env': rng.choice([None, {'A': '1'}, {}, {'X Y': 'a b', 'E': '', 'U': '\xe9=€', 'PATH': '/usr/bin:/bin'}]),
          'dims': rng.choice([None, [7, 13], [1, 1], [300, 500]]),
          'echo': rng.choice([True, True, False]),
          'ignore_sighup': rng.choice([False, False, True]), 'i': i}
